@@ -11,6 +11,8 @@
 (*   the declarative parser DecodeBR reports "input ended, I was waiting    *)
 (*   for <item|path|bytes>", the next byte ranging over the alphabet of     *)
 (*   that position class (plus one junk byte after every complete string).  *)
+(*   Strings that begin with a 3..7-byte length prefix are added as extra    *)
+(*   starting points (EdgeStarts).                                          *)
 (* MODE=trees  the inputs are all outputs the serializer relation SerRel    *)
 (*   allows for every tree of the universe (all trees up to MaxNodes nodes  *)
 (*   over four atoms, and spine/list families that reach the path-length    *)
@@ -41,6 +43,17 @@ ItemAlpha == {255, 254, 128, 1, 2, 129, 130} \cup (IF Thorough THEN {192, 127} E
 PathAlpha == {0, 1, 2, 3, 4, 5, 6, 7, 128, 129, 130, 254, 255}
                \cup (IF Thorough THEN {9, 11, 15, 192} ELSE {})
 ByteAlpha == {0, 2, 5, 128}
+
+\* long length prefixes (3..6 bytes, and the illegal 7-byte one) are not in the alphabets; these
+\* starts are extended like any other string (size/content bytes range over ByteAlpha)
+EdgeStarts == {<< 224 >>, << 240 >>, << 248 >>, << 252 >>, << 252, 4 >>, << 252, 3 >>, << 253 >>,
+               << 254, 224 >>, << 254, 240 >>, << 254, 248 >>, << 254, 252 >>, << 254, 252, 4 >>,
+               << 255, 1, 254, 224 >>, << 255, 224 >>}
+
+LongPrefix == {224, 240, 248, 252, 253}
+\* strings that start with a long prefix are not extended beyond 8 bytes
+Cap(b) == IF b # << >> /\ (b[1] \in LongPrefix \/ (Len(b) >= 2 /\ b[1] = 254 /\ b[2] \in LongPrefix))
+          THEN 8 ELSE MaxLen
 
 NoExp == [has |-> FALSE, t |-> Nil, code |-> << >>, nrel |-> 0, minlen |-> 0]
 
@@ -90,7 +103,7 @@ Start == /\ k = 0 /\ mv = VInit /\ ml = LInit /\ mp = PInit
 
 Init ==
   IF Mode = "bytes"
-  THEN inp = << >> /\ exp = NoExp /\ Start
+  THEN inp \in ({<< >>} \cup EdgeStarts) /\ exp = NoExp /\ Start
   ELSE /\ \E t \in Trees :
             LET rel  == SerRel(t, Nil)
                 code == SerCode(t)
@@ -104,7 +117,7 @@ Init ==
 Running == "run" \in {mv.st, ml.st, mp.st}      \* (not a disjunction: TLC would split the action)
 
 Extend ==
-  /\ k = 0 /\ ~exp.has /\ Len(inp) < MaxLen
+  /\ k = 0 /\ ~exp.has /\ Len(inp) < Cap(inp)
   /\ \E c \in ExtAlpha(DecodeBR(inp)) : inp' = Append(inp, c)
   /\ UNCHANGED << exp, k, mv, ml, mp >>
 
